@@ -1,3 +1,5 @@
+BEGIN;
+
 CREATE TABLE `client_versions`
 (
  `app_id` VARCHAR,
@@ -13,3 +15,5 @@ CREATE INDEX `client_versions_appid_time_idx` on `client_versions` (`app_id`, `c
 
 DELETE FROM `version`;
 INSERT INTO `version` (`version`) VALUES (2);
+
+COMMIT;
